@@ -47,6 +47,8 @@ def is_logging_call(n):
 def is_logging_stmt(s):
     if isinstance(s, ast.Expr) and is_logging_call(s.value):
         return True
+    if isinstance(s, ast.Expr) and isinstance(s.value, ast.BoolOp) and isinstance(s.value.op, ast.And) and all(is_logging_call(v) for v in s.value.values):
+        return True          # `log.isEnabledFor( LEVEL ) and log.info( ... )` as a statement: the value is discarded, both operands are logger calls
     if isinstance(s, ast.If) and not s.orelse and isinstance(s.test, ast.Call) and \
             isinstance(s.test.func, ast.Attribute) and s.test.func.attr == 'isEnabledFor' and \
             isinstance(s.test.func.value, ast.Name) and s.test.func.value.id in ('log', 'logging'):
